@@ -68,7 +68,7 @@ def fam_bits(rec, tier, rnd, only=None):
         if only is not None and w != only:
             continue
         ow = w.bit_length()
-        vals = stratified(rnd, w, 40 if tier == "quick" else 200)
+        vals = stratified(rnd, w, 40 if tier == "quick" else (200 if w <= 33 else 30))  # pysim needs ~35 ms per vector at 64 bits
         vec = [(v, o, p) for v in vals for o in range(0, w + 1) for p in (0, 1)]
         comb_check(rec, f"shift_rotate/w{w}", build_bits(w, ow), vec, ref_bits(w), family="bit_shifters")
 
